@@ -34,8 +34,11 @@ hints_by_round={
  8:["Look in the rarely used corners of the code the property depends on: components few deployments configure and few tests touch (the deadline builder-bid strategy, the legacy version-1 execution configuration, the immediate submitter, the dynamic and static graffiti providers, the latest / majority / first block root and header strategies, the sync committee subscriber, the standard (non-advanced) paths), or a branch for an older fork / data version.",
     "Look for a slip around logging, metrics and tracing: a value computed only for a log line or a metric that now feeds control flow (or the reverse), an argument of a log call whose evaluation can panic or has a side effect, an early return placed inside an `if e := log.Trace(); e.Enabled()` style guard, a monitor call moved onto a path where its operand is nil.",
     "Look for a slip in defaults and fallbacks: what happens when an optional collaborator or optional piece of configuration is absent (nil interface, zero value, empty list, missing key) - a guard removed, inverted or moved below its first use; a default applied at the wrong level; an empty result treated as an error (or an error as an empty result)."],
+ 9:["Look for a slip of sharing versus copying: a slice, map or pointer that caller and callee (or two goroutines, or two duties, or a cache and its reader) now share where each used to have its own, a result handed out that aliases internal state, an `append` onto a backing array somebody else still reads, a sort, filter or compaction done in place on an input, a loop variable or accumulator reused across iterations without being reset.",
+    "Look for a helper, method or constant that has MORE THAN ONE caller or use (chain-time conversions, account lookups, duty constructors and accessors, the relay/REST client helpers, configuration getters in `util`, shared metrics or logging helpers): adjust it for the benefit of one caller in a way that quietly breaks another caller on which the property depends.",
+    "Look for a slip in selection and matching: choosing among several candidates (nodes, relays, bids, accounts, wallets, configuration entries, committees, keys of a map) by the wrong key, the wrong comparison (prefix instead of whole, case, `<` instead of `<=` on a tie, first instead of last), an early `break` that stops at the first match where all were needed, iteration over a map where order matters, or a de-duplication that merges entries that differ."],
 }
-hints=hints_by_round.get(rnd, hints_by_round[8])
+hints=hints_by_round.get(rnd, hints_by_round[9])
 import glob as _glob
 earlier={}
 for _f in sorted(_glob.glob('/verif/seeded/*/meta.json')):
